@@ -326,6 +326,19 @@ func EqualTypedValues(v1, v2 *sdcpb.TypedValue) bool {
 		default:
 			return false
 		}
+	case *sdcpb.TypedValue_DoubleVal:
+		switch v2 := v2.GetValue().(type) {
+		case *sdcpb.TypedValue_DoubleVal:
+			if v1 == nil && v2 == nil {
+				return true
+			}
+			if v1 == nil || v2 == nil {
+				return false
+			}
+			return v1.DoubleVal == v2.DoubleVal
+		default:
+			return false
+		}
 	case *sdcpb.TypedValue_FloatVal:
 		switch v2 := v2.GetValue().(type) {
 		case *sdcpb.TypedValue_FloatVal:
@@ -395,6 +408,7 @@ func EqualTypedValues(v1, v2 *sdcpb.TypedValue) bool {
 					return false
 				}
 			}
+			return true
 		default:
 			return false
 		}
@@ -438,8 +452,8 @@ func EqualTypedValues(v1, v2 *sdcpb.TypedValue) bool {
 			return false
 		}
 	}
-	// TODO: Why is this default case to return true??
-	return true
+	// v1 carries no value at all: equal only to another value-less TypedValue
+	return v2.GetValue() == nil
 }
 
 func TypedValueToString(tv *sdcpb.TypedValue) string {
